@@ -807,6 +807,8 @@ pub fn gen_history(seed: u64, p: &Profile) -> History {
         } else {
             g.k.u128()
         },
+        // in a third of the runs the caller keeps the handles it is given
+        hold: g.k.chance(1, 3),
     };
     History { knobs, ops }
 }
